@@ -14,6 +14,9 @@ pub const BINOPS: &[&str] = &["**", "*", "/", "//", "%", "+", "-", "==", "!=", "
 const LEAVES: &[&str] = &[
     "a", "1", "-1", "1.5", "1.0", "1e3", "0x1f", "1_000", "'s'", "\"it's\"", "'say \"hi\"'", "null", "true", "t.a", "`my col`", "`select`",
     "@2020-01-01", "@10:30", "@2020-01-01T10:30:00Z", "2days", "$1", "r'\\n'", "f\"{a}x\"", "s\"F({a})\"", "f\"{{b}}\"", "'''tri'ple'''", "this", "a.b.c", "`A`", "`é`",
+    // tokens that hold real line breaks, with blanks / a tab / a carriage return in front of the break and a line of
+    // blanks only: text of interpolated strings is written as it is, so nothing may tidy their line ends
+    "s\"SELECT 'a \nb' AS x\"", "f\"l1 \t\n  \nl3{a}\"", "s\"\"\"a\r\n b \n\"\"\"", "\"plain \n text\"",
 ];
 const L2: &[&str] = &["a", "1", "-1", "1.5", "'x'", "null", "t.a", "`my col`"];
 const LONG: &str = "a_very_long_identifier_number_one";
